@@ -292,6 +292,13 @@ def work(shard, tier):
         extra = C.synth_valid(name, n, rng, base=base) + C.synth_alphabet(name, rng, k=2) + C.synth_digits_only(name, rng, k=3)
         extra += C.synth_field_extremes(name, rng, k=1 if tier == 'quick' else 3, raw=False, cap=150 if tier == 'quick' else 2000)[:200 if tier == 'quick' else 3000]
         extra += C.synth_table_boundaries(name, rng, cap=300 if tier == 'quick' else 4000)
+        # numbers on the branches of the registry the module consumes, including values next to / outside the
+        # registered children of an entry (kept if the module accepts them: its getters must then cope)
+        probes = C.registry_probe_inputs(name, rng, 30 if tier == 'quick' else 400)
+        if len(probes) > (1500 if tier == 'quick' else 40000):
+            probes = rng.sample(probes, 1500 if tier == 'quick' else 40000)
+        vopts = [{}] + [o for o in C.validate_options(mod) if o]
+        extra += [x for x in probes if any(C.outcome(mod.validate, x, **o)[0] == 'ok' for o in vopts)]
         extra += C.synth_constant_prefixes(name, rng, cap=40 if tier == 'quick' else 400)
         if 'split' in getters:
             extra += C.synth_boundaries(name, rng, k=2 if tier == 'quick' else 6)
@@ -318,7 +325,7 @@ def work(shard, tier):
                     pairs.append((o[1], x))
         for v, x in pairs:
             counters['valid_numbers'] += 1
-            if C.outcome(mod.validate, v) == ('ok', v):
+            if any(C.outcome(mod.validate, v, **o) == ('ok', v) for o in vopts):
                 evals += check_number(name, mod, getters, v, v, viols, cells)
             else:
                 counters['canonical_forms_not_fixed_points_left_to_C02'] = counters.get('canonical_forms_not_fixed_points_left_to_C02', 0) + 1
